@@ -167,7 +167,7 @@ def _one(rng, small=False):
 
 def cases(rng, tier, n=None):
     if n is None:
-        n = 1500 if tier == 'quick' else 60000
+        n = 5000 if tier == 'quick' else 60000
     out = [_one(rng, small=(i % 3 == 0)) for i in range(n)]
     if tier == 'thorough':
         # all cut vectors of length <= 3 over the event-time set for sequences of <= 4 notes
